@@ -411,8 +411,17 @@ func setStr(m map[int]bool) string {
 // in every order of its keys in turn (http.Header is a map and Go randomises
 // map iteration: what a server does with such a request may differ from run to
 // run); the first run judged wrong is returned, otherwise the first run.
+//
+// A request served behind a ResponseWriter wrapper (rq.W, writer.go) is judged
+// by the same reference; when that finds nothing, its reply must moreover be
+// the one the same request gets on the plain recorder (not compared for requests
+// with several -bin keys: what a server does with those may differ from run to
+// run by itself, see above).
 func checkRequest(e *env, rq *request) *result {
 	first := judge(e.reg, rq, e.do(rq))
+	if rq.W != nil && len(first.Findings) == 0 && !orderDependent(rq.Hdr) {
+		compareWithBaseline(first, e.baseline(rq), first.Obs, rq.W)
+	}
 	if len(first.Findings) > 0 || !orderDependent(rq.Hdr) {
 		return first
 	}
